@@ -524,6 +524,23 @@ func (c *Ctx) BvBin(op Op, a, b *Term) *Term {
 		if op == OBvXor && a == b {
 			return c.Const(a.S, 0)
 		}
+		// (x ^ k) ^ k = x
+		if op == OBvXor && a.Op == OBvXor {
+			if a.Args[0] == b {
+				return a.Args[1]
+			}
+			if a.Args[1] == b {
+				return a.Args[0]
+			}
+		}
+		if op == OBvXor && b.Op == OBvXor {
+			if b.Args[0] == a {
+				return b.Args[1]
+			}
+			if b.Args[1] == a {
+				return b.Args[0]
+			}
+		}
 		if op == OBvOr && a == b {
 			return a
 		}
